@@ -22,7 +22,10 @@ VecOf(f) ==
                            ELSE {}]
                 : v \in Assign(s)}]
 
-ASSUME JsonSerialize(IOEnv.VEC_OUT, [f \in 1 .. Len(Family) |-> VecOf(f)])
+\* IOEnv.VEC_F = "0": all classes; otherwise the index of one class (the harness runs the classes in parallel)
+ASSUME JsonSerialize(IOEnv.VEC_OUT, IF IOEnv.VEC_F = "0" THEN [f \in 1 .. Len(Family) |-> VecOf(f)]
+                                    ELSE <<VecOf(atoi(IOEnv.VEC_F))>>)
+ASSUME PrintT(<<"FAMILY", Len(Family)>>)
 
 \* vectors cross-checking the trusted strict reader/writer of the harness against TlvNum
 ASSUME JsonSerialize(IOEnv.VEC_OUT \o ".num",
